@@ -104,6 +104,7 @@ type Engine struct {
 	primLog   []*PrimCall
 	signedLog []*PrimCall
 	mapOrderNondet bool
+	mapOrderMode int
 	inputObjs map[int]bool
 	encOpts, decOpts map[string]*StructV
 	nodeByName map[string]*Node
